@@ -311,4 +311,64 @@ def mainGv (cfg : Cfg) (s : State) : Gv :=
       | .kMRel none => .brk
       | _ => .normal }
 
+/-- the thread object a program counter of the control thread works on (its record is loaded once
+    per step, the operations of the step act on it, it is written back at the end) -/
+def mainTarget : MPc → Option Nat
+  | .pGoSet i | .pOpen i | .pStart i | .cAcq _ i | .cEvt _ i | .cRel _ i | .kSAcq i | .kSEvt i | .kSRel i => some i
+  | _ => none
+
+/-- (the record of the thread object of the call, the rest of the state) -/
+abbrev MS := Option Player × State
+
+/-- effect of the operation at yield point `y` performed by the control thread -/
+def applyYM : Y → MS → MS
+  | (.acq .mgr, _), (t, s) => (t, { s with mlock := some .main })
+  | (.acq .hlt, _), (t, s) => (t, { s with hlock := some .main })
+  | (.acq .thr, _), (t, s) => (t.map fun p => { p with lk := some .main }, s)
+  | (.rel .mgr, _), (t, s) => (t, { s with mlock := none })
+  | (.relExc .mgr, _), (t, s) => (t, { s with mlock := none })
+  | (.rel .hlt, _), (t, s) => (t, { s with hlock := none })
+  | (.relExc .hlt, _), (t, s) => (t, { s with hlock := none })
+  | (.rel .thr, _), (t, s) => (t.map fun p => { p with lk := none }, s)
+  | (.ev .goSet, _), (t, s) => (t.map fun p => { p with go := true }, s)
+  | (.ev .goClear, _), (t, s) => (t.map fun p => { p with go := false }, s)
+  | (.ev .paOpen, _), (t, s) =>
+    (t.map fun p => { p with sst := .active }, { s with perr := s.perr || decide (s.terminated > 0) })
+  | (.ev .thrStart, _), (t, s) => (t.map fun p => { p with pc := .begin }, s)
+  | (.ev .paTerminate, _), (t, s) => (t, { s with terminated := s.terminated + 1 })
+  | _, ms => ms
+
+/-- effect of a local operation of the control thread at program counter `mpc`: the flags, the list
+    `_threads`, and the creation of the thread object (`AudioThread.__init__` up to its first yield
+    point: the record with its initial values — lock free, event clear, `halting = False`, which the
+    later `self.halting = False` of `__init__` does not change) -/
+def applyLocalM (mpc : MPc) (fails : List Bool) : MS → Op → MS
+  | (t, s), .setFinished v => (t, { s with finished := v })
+  | (t, s), .setHalting true => (t.map fun p => { p with halting := true }, s)
+  | (t, s), .thrAppend =>
+    match mainTarget mpc with
+    | some i => (t, { s with threads := s.threads ++ [i] })
+    | none => (t, s)
+  | (t, s), .newLock .thr =>
+    match mpc with
+    | .pAcq audio cs =>
+      let f := fails.getD s.players.length false
+      let ch := playChunks cs audio f
+      (t, { s with players := s.players ++ [{ pc := .new, audio := audio, cs := cs, all := ch, todo := ch,
+                                               written := [], sst := .unopened, lk := none, go := false,
+                                               halting := false, fail := f }] })
+    | _ => (t, s)
+  | ms, _ => ms
+
+/-- **the state after one step of the control thread inside a call, computed from the skeleton**
+    (all but the program counter / the return to the script): the operation at the pending yield
+    point, then the local operations up to the next one; `t` = the record of the thread object -/
+def mainStepEff (tbl : List (String × Skel)) (cfg : Cfg) (s : State) (t : Option Player) (m : String) (y : Y) :
+    Option State :=
+  (nextY tbl m (mainGv cfg s) y).map fun r =>
+    let ms := r.1.foldl (applyLocalM s.mpc cfg.fails) (applyYM y (t, s))
+    match mainTarget s.mpc, ms.1 with
+    | some i, some q => setP ms.2 i q
+    | _, _ => ms.2
+
 end ALV.C17
